@@ -30,6 +30,7 @@
 From Coq Require Import ZArith List Permutation.
 From GoIpa Require Import Model.Alg Model.Pippenger Proofs.AlgLaws Proofs.IPAProofs
   Proofs.PippengerProofs Proofs.MsmProofs Proofs.PartitionProofs Proofs.MsmInner Proofs.MultiExpProofs.
+From GoIpa Require Model.FpSqrt Proofs.ZqField.
 Import ListNotations.
 Open Scope Z_scope.
 
@@ -139,3 +140,12 @@ Print Assumptions C09_split_sum.
 
 Example C09_example_recode : recode 4 4 0xBEEF 0 = ([-1; -1; -1; -4], 1).
 Proof. vm_compute. reflexivity. Qed.
+
+(* the scalar-side premises of the theorems above hold for the concrete scalar field *)
+Theorem C09_concrete_scalar_premises :
+  (forall a b, fofz FpSqrt.fro (a + b) = fadd FpSqrt.fro (fofz FpSqrt.fro a) (fofz FpSqrt.fro b))
+  /\ (forall a b, fofz FpSqrt.fro (a * b) = fmul FpSqrt.fro (fofz FpSqrt.fro a) (fofz FpSqrt.fro b))
+  /\ fofz FpSqrt.fro 1 = f1 FpSqrt.fro
+  /\ FieldLaws FpSqrt.fro.
+Proof. exact (conj (proj1 ZqField.fro_fofz_morphism) (conj (proj1 (proj2 ZqField.fro_fofz_morphism)) (conj (proj2 (proj2 ZqField.fro_fofz_morphism)) ZqField.fr_field_laws))). Qed.
+Print Assumptions C09_concrete_scalar_premises.
